@@ -37,7 +37,7 @@ type ST struct {
 }
 
 type Case struct {
-	Kind  string `json:"kind"` // ops | fan | conc | race | unw | raw
+	Kind  string `json:"kind"` // ops | fan | fani | conc | race | unw | raw
 	Ops   []Op   `json:"ops,omitempty"`
 	Extra []ST   `json:"extra,omitempty"` // further (session,type) pairs whose subscriber lists are watched
 	S     string `json:"s,omitempty"`     // unw
@@ -50,6 +50,9 @@ type Case struct {
 	Sched   []int      `json:"sched,omitempty"` // the choices among the enabled feed / receive actions
 	Cap     int        `json:"cap,omitempty"`   // capacity of the subscriber channels (0 = unbuffered)
 	Procs   int        `json:"procs,omitempty"` // GOMAXPROCS during the case (0 = unchanged)
+	// fani (see fani.go): a script of table operations, messages on the streams of Peers, idle periods
+	Script []Ev  `json:"script,omitempty"`
+	Peers  []int `json:"peers,omitempty"` // the authenticated remote peer (number) of every stream
 	// conc / race (see conc.go): one sequential program per goroutine, all on one Libp2pCommunication
 	Threads [][]Op `json:"threads,omitempty"` // ops: sub (C owned by the thread) | unsub (K-th sub of THIS thread) | get | deliver
 	Round   int    `json:"round,omitempty"`   // the threads meet at a barrier every Round operations (0 = only at the start)
@@ -261,6 +264,24 @@ func run(c Case) Obs {
 		}
 		o.Repeated = true
 		return o
+	case "fani":
+		if hasIdle(c) {
+			o := runSlow(c) // in a child process (started with the other slow cases of the batch)
+			if o.Crash != "" {
+				panic("slow case: " + o.Crash)
+			}
+			return o
+		}
+		var o Obs
+		for attempt := 0; attempt < 3; attempt++ {
+			var rep bool
+			o, rep = runFanI(c)
+			if !rep {
+				return o
+			}
+		}
+		o.Repeated = true
+		return o
 	case "conc", "race":
 		return runConc(c)
 	case "unw", "raw":
@@ -351,9 +372,11 @@ func genOps(r *vgen.Rng, maxOps int) Case {
 
 func gen(r *vgen.Rng, tier string) []Case {
 	var out []Case
-	nlists, maxOps, nraw, nfan, nconc, nrace := 260, 40, 150, 320, 40, 6
+	nlists, maxOps, nraw, nfan, nconc, nrace := 260, 40, 150, 240, 40, 6
+	nfani, nslow, idleMs := 150, 4, 5000
 	if tier == "thorough" {
 		nlists, maxOps, nraw, nfan, nconc, nrace = 4000, 60, 3000, 6000, 600, 60
+		nfani, nslow, idleMs = 4000, 8, 15000
 	}
 	// Unwrap of built ids: every family member x boundary types x boundary unique components
 	for _, fam := range families {
@@ -385,7 +408,15 @@ func gen(r *vgen.Rng, tier string) []Case {
 	}
 	for i := 0; i < nfan; i++ {
 		out = append(out, genFan(r))
+		if i*nfani/nfan != (i+1)*nfani/nfan {
+			out = append(out, genFanI(r))
+		}
 	}
+	var slow []Case
+	for i := 0; i < nslow; i++ {
+		slow = append(slow, genSlow(r, idleMs))
+	}
+	prefetchSlow(slow) // they run in child processes while the other cases are driven, and come last
 	// concurrent cases (conc.go) are spread evenly over the list: they are the expensive ones to
 	// evaluate, and the shards are evaluated in parallel
 	var cc []Case
@@ -404,7 +435,7 @@ func gen(r *vgen.Rng, tier string) []Case {
 		}
 		mixed = append(mixed, c)
 	}
-	return append(mixed, cc...)
+	return append(append(mixed, cc...), slow...)
 }
 
 // ---- printing ------------------------------------------------------------------------------------
@@ -428,6 +459,8 @@ func coq(c Case, o Obs) string {
 		return "Raw " + vgen.Str(c.ID) + " " + resCoq(o)
 	case "fan":
 		return fanCoq(c, o)
+	case "fani":
+		return fanICoq(c, o)
 	case "conc", "race":
 		return concCoq(c, o)
 	}
@@ -481,6 +514,12 @@ func main() {
 			if c.Kind == "fan" {
 				return "fan-" + c.Mode
 			}
+			if c.Kind == "fani" {
+				if hasIdle(c) {
+					return "slow"
+				}
+				return "fani-" + c.Mode
+			}
 			if c.Kind == "conc" || c.Kind == "race" {
 				return c.Kind
 			}
@@ -497,6 +536,8 @@ func main() {
 				return strings.Count(c.ID, "-") >= 2
 			case "fan":
 				return fanNonTrivial(c)
+			case "fani":
+				return fanINonTrivial(c)
 			case "conc", "race":
 				return concNonTrivial(c)
 			}
@@ -510,6 +551,6 @@ func main() {
 			}
 			return nsub >= 2 && other >= 1
 		},
-		Rule: "Unwrap on ids built for every session-family member x boundary types x boundary unique components, Unwrap on random/malformed strings, and random operation lists (sub/unsub/deliver, 1..40 ops quick, 1..60 thorough) over 1..5 sessions of a family of mutually confusable ids (prefixes, trailing/leading/double hyphens, empty, hex digests, production-style message ids) and 1..3 declared message types; fan cases: a table of 1..9 subscriptions / cancellations (several subscribers per pair, channels holding several subscriptions), then 1..3 inbound streams of 1..6 messages each (different and equal sessions / types / payloads) handed to ProcessMessagesFromStream back to back, one per Read or in random chunks, with unbuffered / capacity-1 / large subscriber channels read late (nobody reads before everything was decoded), interleaved or promptly in a random order, a third of them under GOMAXPROCS(1); conc / race cases: 8..16 goroutines (race: 8..12) x 2..5 rounds x 2..5 operations (subscribe own channel, cancel own subscription - possibly cancelled before -, GetSubscribers, deliver one message through ProcessMessagesFromStream) on one Libp2pCommunication held by value in interfaces, over a session shared by all, one session created per round, sessions of the thread's own and of other threads, 1..3 declared message types of a family of hyphenated ids; the goroutines enter every round together (spinning barrier) and start it with a common action drawn per round: all subscribe to the pair created in this round, all cancel what they subscribed at the previous barrier, a mix of subscribe / cancel / lookup of one pair, or nothing in common; a fifth of the cases under GOMAXPROCS 2 / 4 / 8; each case in a child process, race cases in a child built with -race; 4 fixed corpus cases (subscribe-lookup-cancel storms on one pair; subscribe at one barrier, cancel at the next); distinct = distinct input JSON; non-trivial = every built-id Unwrap, malformed ids with at least two separators, operation lists with at least two subscriptions and one cancellation or delivery, fan cases with a subscription and at least two messages, concurrent cases with at least two threads and eight operations",
+		Rule: "Unwrap on ids built for every session-family member x boundary types x boundary unique components, Unwrap on random/malformed strings, and random operation lists (sub/unsub/deliver, 1..40 ops quick, 1..60 thorough) over 1..5 sessions of a family of mutually confusable ids (prefixes, trailing/leading/double hyphens, empty, hex digests, production-style message ids) and 1..3 declared message types; fan cases: a table of 1..9 subscriptions / cancellations (several subscribers per pair, channels holding several subscriptions), then 1..3 inbound streams of 1..6 messages each (different and equal sessions / types / payloads) handed to ProcessMessagesFromStream back to back, one per Read or in random chunks, with unbuffered / capacity-1 / large subscriber channels read late (nobody reads before everything was decoded), interleaved or promptly in a random order, a third of them under GOMAXPROCS(1); fani cases: scripts of 5..16 table operations and messages over 1..2 hot (session, type) pairs and others on 1..3 long-lived streams (messages mostly on the same stream and of the same pair, a quarter joined into one Read; subscriptions of new / already used channels and cancellations of live / already cancelled subscriptions strictly between the messages), receivers late / mixed / prompt, unbuffered / capacity-1 / large channels, a quarter under GOMAXPROCS(1), 4 fixed corpus scripts; slow cases: 1..3 subscribers of a pair (+ possibly one of another pair, + a late subscriber), 2..6 messages pending on unbuffered / capacity-1 channels, 5 s (thorough 15 s) of nobody reading or feeding, then 0..3 more messages / a subscription / a cancellation, then the readers catch up - each in a child process, all started together; conc / race cases: 8..16 goroutines (race: 8..12) x 2..5 rounds x 2..5 operations (subscribe own channel, cancel own subscription - possibly cancelled before -, GetSubscribers, deliver one message through ProcessMessagesFromStream) on one Libp2pCommunication held by value in interfaces, over a session shared by all, one session created per round, sessions of the thread's own and of other threads, 1..3 declared message types of a family of hyphenated ids; the goroutines enter every round together (spinning barrier) and start it with a common action drawn per round: all subscribe to the pair created in this round, all cancel what they subscribed at the previous barrier, a mix of subscribe / cancel / lookup of one pair, or nothing in common; a fifth of the cases under GOMAXPROCS 2 / 4 / 8; each case in a child process, race cases in a child built with -race; 4 fixed corpus cases (subscribe-lookup-cancel storms on one pair; subscribe at one barrier, cancel at the next); distinct = distinct input JSON; non-trivial = every built-id Unwrap, malformed ids with at least two separators, operation lists with at least two subscriptions and one cancellation or delivery, fan cases with a subscription and at least two messages, interleaved cases with a table operation strictly between two messages of one stream, concurrent cases with at least two threads and eight operations",
 	})
 }
